@@ -261,7 +261,17 @@ def gen_sami(rng, n=None, nlangs=None):
     if len(body) > 1 and rng.random() < 0.08:
         k = rng.randrange(1, len(body))
         body[k] = body[k].replace(" start=\"", " begin=\"", 1)     # later SYNC without start: raises after earlier captions
-    tail = "\n</BODY></SAMI>\n" if rng.random() < 0.9 else "\n"
+    r = rng.random()
+    if r < 0.82:
+        tail = "\n</BODY></SAMI>\n"
+    elif r < 0.9:
+        tail = "\n"
+    else:
+        # torn inside a tag / an entity: the HTML parser is left holding unconsumed input
+        tail = "\n" + rng.choice(['<SYNC start="99000"><P class="%s"' % classes[0], "<SYNC start=", "<P", "<!-- unterminated", "&am", "<i"])
+    if len(body) > 1 and rng.random() < 0.05:
+        k = rng.randrange(1, len(body))
+        body[k] = body[k].replace("</P>", rng.choice(["&#1114112;", "&#xFFFFFFFF;", "&#0;"]) + "</P>", 1)   # character reference out of range
     doc = head + "\n".join(body) + tail
     if rng.random() < 0.04:
         doc = doc.replace("color:", "color: #zz", 1)
